@@ -25,6 +25,6 @@ PROP = dict(
     units=[
         U("store", "./boltdb", "^TestVerifC25_Store$", 1000, 50000, sq=4, sth=14),
         U("diff", ".", "^TestVerifC25_Diff$", 2000, 100000, sq=1, sth=2),
-        U("api", "./server", "^TestVerifC25_API$", 240, 6000, sq=4, sth=12),
+        U("api", "./server", "^TestVerifC25_API$", 240, 3600, sq=4, sth=12),
     ],
 )
